@@ -34,11 +34,17 @@ FILTERS = [
     ("two-rels", T.binop("And", T.binop("NotEq", T.path("blog", "title"), T.Str("b0")), T.binop("Eq", T.path("author", "name"), T.Str("p1")))),
     ("path2", T.binop("Eq", T.path("blog", "owner", "name"), T.Str("p1"))),
     ("path-null", T.binop("Eq", T.path("blog", "title"), T.NULL)),
+    # nullable hop (Post.author) followed by a NOT NULL hop (Person.city); true for posts WITHOUT an author as well
+    ("path-notnull-hop", T.binop("Or", T.binop("Eq", T.path("author", "city", "name"), T.Str("c1")), T.binop("Eq", T.path("author", "city", "name"), T.NULL))),
     ("lambda", T.lam(T.I("comments"), "Any", "c", T.binop("Gt", T.path("c", "score"), T.Int(1)))),
     ("lambda-and-path", T.binop("And", T.lam(T.I("comments"), "All", "c", T.binop("Gt", T.path("c", "score"), T.Int(1))),
                                 T.binop("NotEq", T.path("author", "name"), T.Str("zz")))),
 ]
 
+# which table each pre-joined base query joins, and through which to-one path
+BASE_JOINS = {"join-blog": {"Blog": ("blog",)}, "join-author": {"Person": ("author",)}, "outerjoin-blog": {"Blog": ("blog",)},
+              "join-blog-where": {"Blog": ("blog",)}, "join-both-order": {"Blog": ("blog",), "Person": ("author",)},
+              "join-owner": {"City": ("owner",)}, "outerjoin-owner-where": {"City": ("owner",)}}
 _SES = None
 
 
@@ -182,9 +188,13 @@ def check_instance(acc, fam, db):
                     finding = None
                     if backend.startswith("sa") and bname == "join-blog-entity" and "ambiguous column name: sa_blog" in str(e) and fk != "scalar":
                         finding = "sa:prejoined-by-entity-joined-again"
-                    if backend.startswith("sa") and bname in ("join-author", "join-both-order") and fk == "path2" and "ambiguous column name: sa_person" in str(e):
-                        # base joins Person through Post.author, the filter reaches Person through blog/owner
-                        finding = "sa:same-table-joined-via-two-paths"
+                    if backend.startswith("sa") and "ambiguous column name" in str(e):
+                        # base joins table T through one relationship, the filter reaches T through a different to-one path
+                        from checks.C04 import joined_prefixes
+                        base_joins = BASE_JOINS.get(bname, {})
+                        for prefix, tbl in joined_prefixes("Post", term).items():
+                            if tbl in base_joins and base_joins[tbl] != prefix:
+                                finding = "sa:same-table-joined-via-two-paths"
                     acc.violation("%s:exception:%s:%s:%s" % (backend, type(e).__name__, bname, fk), dict(info, error=str(e)[:200].replace("\n", " ")), finding=finding)
                     continue
                 same = (got == exp) if ordered else (sorted(got) == sorted(exp))
